@@ -43,7 +43,7 @@ RULE = (
     "__all__ forms (also re-assigned inside blocks), if/elif/else, try/except/else/finally, for, with, while, match, TYPE_CHECKING blocks, property "
     "setter groups, __init__ instance attributes and definitions nested in __init__, docstring "
     "literals at legal and illegal positions, decorators from the label tables through every import form, unsupported binders; names from a "
-    "pool of 10 so duplicates are the norm) rendered to text; each text judged against a reference binder over ast.parse. "
+    "pool of 12 covering the 3x3 grid of 0/1/2 leading x trailing underscores, so duplicates are the norm) rendered to text; each text judged against a reference binder over ast.parse. "
     "non-trivial = module has a duplicate binding, a definition inside a compound statement, a nested class, a decorated definition, an "
     "__init__ instance attribute or __all__; distinct = distinct source text. Totality-only cases (wide grammar / pysource_codegen) are "
     "counted in evaluations and classes ('wide:*') but never as non-trivial."
